@@ -674,7 +674,21 @@ static int gen_qname(unsigned char *out, const struct dom *d)
 			suf[sl++] = '*'; suf[sl++] = '.';
 		}
 		switch (kind) {
-		case 1: lit[drv_below((unsigned)ll)] = (unsigned char)"abcxyzABCXYZ019-."[drv_below(17)]; break;
+		case 1:
+			if (drv_below(2)) {
+				lit[drv_below((unsigned)ll)] = (unsigned char)"abcxyzABCXYZ019-."[drv_below(17)];
+			} else {
+				/* a byte that differs from the original in one or two bits (0x20, 0x40, 0x80, 0x10, 0x01 ...): what sloppy
+				 * case folding ("| 0x20", "& 0xdf", "^ 0x20") would still accept - e.g. 0x0e for '.', 0x0d for '-',
+				 * 0x10..0x19 for digits, '@' / '`' next to letters */
+				static const unsigned char flips[] = { 0x20, 0x20, 0x20, 0x40, 0x80, 0x10, 0x01, 0x60, 0xa0 };
+				int at2 = (int)drv_below((unsigned)ll);
+				unsigned char nb = (unsigned char)(lit[at2] ^ flips[drv_below(sizeof(flips))]);
+				if (nb != 0 && nb != '.') lit[at2] = nb;
+				else lit[at2] = (unsigned char)(lit[at2] ^ 0x02);
+				if (lit[at2] == 0 || lit[at2] == '.') lit[at2] = 'q';
+			}
+			break;
 		case 2: /* label boundary shifted: extra characters glued to the first literal label */
 			if (sl && suf[sl - 1] == '.' && drv_below(2)) sl--;      /* "wl" + rest without the dot */
 			else { suf[sl++] = (unsigned char)"xa-0"[drv_below(4)]; }
